@@ -122,6 +122,28 @@ def gen_opts(r):
             o.append(sw)
     if r.random() < 0.3:
         o += ["-C"] + [c for c in ["power_ts4", "coll_bw", "prep_queue", "rcu_util"] if r.random() < 0.6]
+    # options whose parsed values live in objects that could outlast a run (limits, filters, profiles)
+    if r.random() < 0.3:
+        lim = {}
+        for key, val in (("skip", r.randrange(0, 6)), ("count", r.randrange(1, 30)),
+                         ("ts_start", float(r.randrange(0, 400))), ("ts_end", float(r.randrange(300, 4000)))):
+            if r.random() < 0.4:
+                lim[key] = val
+        o += ["--event_limit", json.dumps(lim)]
+        if "-M" not in o:
+            o.append("-M")        # a limit may cut a rank out of a collective: mp-sync would refuse the trace
+    if r.random() < 0.15:
+        o += ["--event_filter", r.choice(["name:Exec$", "name:^HostFn_[01]", "args.uid:[37]$", "name:DmaO$"])]
+        if "-M" not in o:
+            o.append("-M")
+    if r.random() < 0.12:
+        o += ["-F", r.choice(["X", "XC", "C"])]
+    if r.random() < 0.12:
+        o += ["-O", r.choice(["drop", "tid", "async", "warn", "shift"])]
+    if r.random() < 0.1:
+        o.append("--keep_names")
+    if r.random() < 0.1 and "--disable_tb" not in o:
+        o.append("--tb")
     return o
 
 
